@@ -1,9 +1,10 @@
 #!/bin/bash
-# Runs every kept seeded change against the quick check of its property (scratch worktree, evidence untouched)
-# and prints CAUGHT/MISSED per change.
+# Runs every kept seeded change against the quick check of its property -- or of the properties named in
+# its meta.json "caught_by" -- (scratch worktree, evidence untouched) and prints CAUGHT/MISSED per change.
 cd /verif
 for d in seeded/*/; do
   n=$(basename $d); id=${n%%-*}
-  out=$(./seedtest.sh /verif/$d/patch.diff $id 2>&1)
-  if echo "$out" | grep -q "VIOLATION"; then echo "CAUGHT $n: $(echo "$out" | grep -o 'class=[^ ]*' | head -1)"; else echo "MISSED $n: $(echo "$out" | tail -1)"; fi
+  ids=$(python3 -c "import json;print(' '.join(json.load(open('/verif/$d/meta.json')).get('caught_by',['$id'])))")
+  out=$(./seedtest.sh /verif/$d/patch.diff $ids 2>&1)
+  if echo "$out" | grep -q "VIOLATION"; then echo "CAUGHT $n: $(echo "$out" | grep -E '^--- .*VIOLATION' | sed 's/ (.*//' | tr '\n' ' ') $(echo "$out" | grep -o 'class=[^ ]*' | head -1)"; else echo "MISSED $n: $(echo "$out" | tail -1)"; fi
 done
